@@ -342,13 +342,36 @@ theorem bindings_current (arrays : List Nat) (p : Nat) (ops : List Op)
 the history does not end in an in-place change that was not followed by
 `update()` or a rebinding. -/
 theorem neighbours_current (arrays : List Nat) (p : Nat) (ops : List Op) (last : Op)
-    (hops : ∀ op ∈ ops ++ [last], op.isInterp = true) (hlast : last.isMutate = false) :
+    (hops : ∀ op ∈ ops ++ [last], op.isInterp = true) (hlast : last.isMutate = false)
+    (hlast2 : last.isTouch = false) :
     (interpolateReads (run (init arrays p) (ops ++ [last]))).neighboursCurrent = true := by
   have hb := run_bound (init arrays p) (ops ++ [last]) hops (init_spec arrays p).1
   have hf : Fresh (run (init arrays p) (ops ++ [last])) := by
-    rw [run_append_singleton]; exact fresh_step _ _ hlast
+    rw [run_append_singleton]; exact fresh_step _ _ hlast hlast2
   simp only [interpolateReads, Bool.and_eq_true, decide_eq_true_eq]
   exact ⟨hb.2.2, hf⟩
+
+/-- In-place changes of DATA (masses, densities, property values, constants: `Op.touch`)
+need no `update()`: whatever `interpolate` read, filled, had binned and whether its
+neighbour lists were current is the same after any number of them — the Interpolator
+holds references to the arrays, no copies of what is in them. -/
+theorem data_changes_keep_bindings (s : IState) (os : List Nat) :
+    run s (os.map Op.touch) = s := by
+  induction os with
+  | nil => rfl
+  | cons o rest ih => simpa [run, step] using ih
+
+theorem neighbours_current_after_data_changes (arrays : List Nat) (p : Nat) (ops : List Op)
+    (last : Op) (os : List Nat)
+    (hops : ∀ op ∈ ops ++ [last], op.isInterp = true) (hlast : last.isMutate = false)
+    (hlast2 : last.isTouch = false) :
+    (interpolateReads (run (init arrays p) ((ops ++ [last]) ++ os.map Op.touch))).neighboursCurrent
+      = true := by
+  have h := neighbours_current arrays p ops last hops hlast hlast2
+  have e : run (init arrays p) ((ops ++ [last]) ++ os.map Op.touch) =
+      run (run (init arrays p) (ops ++ [last])) (os.map Op.touch) := by
+    simp [run, List.foldl_append]
+  rw [e, data_changes_keep_bindings]; exact h
 
 theorem neighbours_current_after_construction (arrays : List Nat) (p : Nat) :
     (interpolateReads (init arrays p)).neighboursCurrent = true := by
@@ -369,6 +392,7 @@ def isEvalOp : Op → Bool
   | Op.evalUpdateArrays _ => true
   | Op.update => true
   | Op.mutate _ => true
+  | Op.touch _ => true
   | _ => false
 
 theorem evaluator_bindings_current (objs : List Nat) (ops : List Op)
@@ -393,6 +417,9 @@ theorem evaluator_bindings_current (objs : List Nat) (ops : List Op)
           (by simpa [step, updateOp] using h2)
       | mutate o =>
         exact ih hrest (step s (Op.mutate o)) o0 (by simpa [step] using h1)
+          (by simpa [step] using h2)
+      | touch o =>
+        exact ih hrest (step s (Op.touch o)) o0 (by simpa [step] using h1)
           (by simpa [step] using h2)
       | setPoints p => have := hops (Op.setPoints p) (by simp); simp [isEvalOp] at this
       | updateArrays as => have := hops (Op.updateArrays as) (by simp); simp [isEvalOp] at this
@@ -719,5 +746,83 @@ example :
     (interpolateReads s).constants = [5, 6, 9] ∧
     sphConst (2:ℚ) [⟨1/2, 0, 0, 0, 0, 0, 0, 3, 4, 5⟩, ⟨1/4, 0, 0, 0, 1, 0, 0, 1, 2, 8⟩] = 23/4 := by
   refine ⟨?_, ?_, ?_, ?_⟩ <;> decide +kernel
+
+/-! ## order1 on arrays shared with the caller and with other evaluators -/
+
+section SharedDensity
+variable {α : Type} [Field α] [LinearOrder α] [IsStrictOrderedRing α] [BEq α]
+
+/-- order1 writes, into every source particle it iterates over, the summation
+density of the PRESENT masses: what `rho` held before the call (the caller's
+values, zeros, the density another evaluator with another kernel left) does not
+enter. -/
+theorem order1_density_from_present_masses (tol : α) (dim : Nat) (g : SrcGeo α) (d : Pos α)
+    (pn : List (PtNbr α)) (st st' : Store α) (hm : st.m = st'.m) (j : Nat) (hj : j ∈ g.ids) :
+    (order1Compute tol dim g d pn st).1.rho j = densityAt st g j ∧
+    (order1Compute tol dim g d pn st).1.rho j = (order1Compute tol dim g d pn st').1.rho j := by
+  refine ⟨group1_rho_of_mem g st j hj, ?_⟩
+  show (group1 g st).rho j = (group1 g st').rho j
+  rw [group1_rho_of_mem g st j hj, group1_rho_of_mem g st' j hj, densityAt_congr st st' hm]
+
+/-- **Every `interpolate` call of an order1 Interpolator is a function of the data
+as they are at the call**: two states of the shared arrays with the same masses
+and the same staged values give the same four numbers at every point whose
+neighbours the density group covers, whatever `rho` holds in either. -/
+theorem order1_independent_of_shared_rho (tol : α) (dim : Nat) (g : SrcGeo α) (d : Pos α)
+    (pn : List (PtNbr α)) (hin : ∀ p ∈ pn, p.k ∈ g.ids) (st st' : Store α)
+    (hm : st.m = st'.m) (hf : st.f = st'.f) :
+    (order1Compute tol dim g d pn st).2 = (order1Compute tol dim g d pn st').2 := by
+  rw [order1Compute_snd, order1Compute_snd, ptNbr_group1_congr g st st' hm hf pn hin]
+
+/-- …in particular after ANY sequence of in-place changes of `rho` and of
+computes of OTHER order1 evaluators over the same arrays (other kernels, other
+points) since the last call: the next call returns what it would have returned
+without them. -/
+theorem order1_unaffected_by_other_evaluators (tol : α) (dim : Nat) (g : SrcGeo α) (d : Pos α)
+    (pn : List (PtNbr α)) (hin : ∀ p ∈ pn, p.k ∈ g.ids) (st : Store α) (ops : List (SOp α))
+    (hops : ∀ op ∈ ops, op.rhoOnly = true) :
+    (order1Compute tol dim g d pn (srun st ops)).2 = (order1Compute tol dim g d pn st).2 := by
+  have h := srun_rhoOnly st ops hops
+  exact order1_independent_of_shared_rho tol dim g d pn hin _ _ h.1 h.2
+
+/-- **order1 reproduces a linear field on EVERY call over shared arrays**: whatever
+history the arrays went through (masses rescaled in place, `rho` overwritten by
+anybody), the moment matrix group 2 builds and the right-hand side group 3 builds
+in THIS call use the same volumes `m_k / rho_k` (the density group 1 has just
+written), so any exact solution of the system is (value, gradient) of the field. -/
+theorem order1_shared_reproduces_linear (g : SrcGeo α) (d : Pos α) (pn : List (PtNbr α))
+    (st0 : Store α) (ops : List (SOp α)) (a : α) (gr : Nat → α)
+    (hf : ∀ p ∈ pn, (srun st0 ops).f p.k = a + gr 0 * p.sx + gr 1 * p.sy + gr 2 * p.sz)
+    (dim : Nat) (hdim : dim ≤ 3) (hg : ∀ k, dim ≤ k → gr k = 0)
+    (x : Nat → α) :
+    let nbrs := pn.map (ptNbr (group1 g (srun st0 ops)))
+    (∀ r < dim + 1, momentRow d nbrs (dim + 1) r x = psphEntry nbrs r) →
+    (∀ y : Nat → α, (∀ r < dim + 1, momentRow d nbrs (dim + 1) r y = 0) →
+      ∀ c < dim + 1, y c = 0) →
+    x 0 = a + gr 0 * d.x + gr 1 * d.y + gr 2 * d.z ∧ ∀ k < dim, x (k + 1) = gr k := by
+  intro nbrs hx hns
+  refine order1_reproduces_linear d nbrs a gr ?_ dim hdim hg x hx hns
+  intro nb hnb
+  obtain ⟨p, hp, rfl⟩ := List.mem_map.mp hnb
+  simpa [ptNbr, group1] using hf p hp
+
+end SharedDensity
+
+/-- two source particles, one point between them, field `2 + 3x`; the arrays
+arrive once with `rho = (5, 7)` left by somebody else and once with zeros, the
+masses were tripled in place: the same, exact, answer -/
+example :
+    let g : SrcGeo ℚ := ⟨[0, 1], fun j => if j = 0 then [(0, 2), (1, 1)] else [(1, 2), (0, 1)]⟩
+    let pn : List (PtNbr ℚ) := [⟨0, 1, 1, 0, 0, 0, 0, 0⟩, ⟨1, 1, -1, 0, 0, 1, 0, 0⟩]
+    let d : Pos ℚ := ⟨1/2, 0, 0⟩
+    let f : Nat → ℚ := fun k => if k = 0 then 2 else 5
+    let st : Store ℚ := ⟨fun _ => 3, fun k => if k = 0 then 5 else 7, f⟩
+    let st' : Store ℚ := ⟨fun _ => 3, fun _ => 0, f⟩
+    (order1Compute (1/1000000000000) 1 g d pn st).2.toList = [7/2, 3, 0, 0] ∧
+    (order1Compute (1/1000000000000) 1 g d pn st').2.toList = [7/2, 3, 0, 0] ∧
+    (order1Compute (1/1000000000000) 1 g d pn (srun st [SOp.otherOrder1 ⟨[0, 1], fun _ => [(0, 1)]⟩])).2.toList
+      = [7/2, 3, 0, 0] := by
+  refine ⟨by decide +kernel, by decide +kernel, by decide +kernel⟩
+
 
 end PysphVerif.C14
